@@ -22,12 +22,20 @@ import (
 	"com.tuntun.rangers/node/src/consensus/model"
 	middleware_pb "com.tuntun.rangers/node/src/middleware/pb"
 	"com.tuntun.rangers/node/src/middleware/types"
+	"fmt"
 	"github.com/gogo/protobuf/proto"
 	"time"
 )
 
 func baseMessage(sign *middleware_pb.SignData) *model.SignInfo {
-	return pbToSignData(sign)
+	// callers dereference the result: malformed sign data becomes the zero
+	// SignInfo (invalid signer id), which never verifies
+	if sign != nil {
+		if si := pbToSignData(sign); si != nil {
+			return si
+		}
+	}
+	return &model.SignInfo{}
 }
 
 func pbToGroupInfo(gi *middleware_pb.ConsensusGroupInitInfo) *model.GroupInitInfo {
@@ -176,6 +184,9 @@ func UnMarshalConsensusCastMessage(b []byte) (*model.ConsensusCastMessage, error
 	}
 
 	bh := types.PbToBlockHeader(m.Bh)
+	if bh == nil {
+		return nil, fmt.Errorf("unMarshalConsensusCastMessage: malformed block header")
+	}
 
 	hashs := make([]common.Hash, len(m.ProveHash))
 	for i, h := range m.ProveHash {
